@@ -323,8 +323,8 @@ Proof.
   - eexists. split; [solo_run | reflexivity].
 Qed.
 
-(* ---------- the lock-free GC gone path is NOT serializable against a long copy-in ---------- *)
-(* GCTracts(gone) calls removeTract without the tract lock: lookup under s.lock, Disk.Delete, map delete.  When that
+(* ---------- the lock-free GC gone path (the code BEFORE fix ab74e69, program KGoneOld) is NOT serializable ---------- *)
+(* GCTracts(gone) called removeTract without the tract lock: lookup under s.lock, Disk.Delete, map delete.  When that
    falls between the lookup and the Delete of PullTract's own removeTract, the copy-in's Delete fails with
    ErrNoSuchTract and PullTract returns that error although its only source delivered: in both serial orders it
    returns NoError. *)
@@ -342,4 +342,12 @@ Lemma gcgone_not_serializable :
   all_done inter = true /\ all_done serA = true /\ all_done serB = true /\
   res_of inter 0 = Some [c18_e_NoSuchTract] /\ res_of serA 0 = Some [c18_e_NoError] /\ res_of serB 0 = Some [c18_e_NoError] /\
   at_ 0 (fst inter) = (None, None, Some 2).
+Proof. vm_compute. repeat split; reflexivity. Qed.
+
+(* the same schedule with the gone program of the current tree (fix ab74e69: WRITE lock around removeTract): the GC finds
+   the long writer, skips the tract, and the copy-in succeeds *)
+Definition op_gone_locked : opd := {| o_kind := KGCGone; o_tract := 0; o_a1 := 0; o_a2 := 0; o_a3 := 0; o_data := []; o_srcs := []; o_pack := [] |}.
+Lemma gcgone_locked_same_schedule :
+  let inter := run_sched repaired (g_one_tract, [new_thread op_pull; new_thread op_gone_locked]) (sched_of 0 8 ++ sched_of 1 4 ++ sched_of 0 30) in
+  all_done inter = true /\ res_of inter 0 = Some [c18_e_NoError] /\ res_of inter 1 = Some [].
 Proof. vm_compute. repeat split; reflexivity. Qed.
